@@ -6,7 +6,7 @@ cases.json: {"cases": [CASE, ...]} with
           "target": "jsonschema", "snippets": {relpath: content} | null (default minimal set for the target),
           "argDefect": "none" | "model_not_file" | "snippets_not_dir" | "output_not_dir",
           "outBlock": bool                    a directory sits where the target wants to write its file
-          "twice": bool}                      run a second time on the same model cache (cache hit when caching is on)
+          "twice": bool}                      run a second time: same model cache, same (now populated) output directory
 out.json: {"traces": [...], "meta": [...], "installed": [...]}; traces[i] belongs to meta[i].
 """
 from __future__ import annotations
@@ -144,8 +144,7 @@ def _one(case: Dict[str, Any]) -> List[Dict[str, Any]]:
             for rel in ("schema.json", "schema.xsd"):
                 (out_dir / rel).mkdir(parents=True, exist_ok=True)
         for k in range(2 if case.get("twice") else 1):
-            if k == 1 and out_dir.is_dir():
-                shutil.rmtree(out_dir, ignore_errors=True)
+            # the second run goes into the same, already populated output directory (a re-generation)
             tr = pipe_trace.run_main(model_path, sn_dir, out_dir, target, text, arg_defect=defect, via_module=bool(case.get("viaModule")))
             tr["_components"] = None
             results.append(tr)
